@@ -150,6 +150,8 @@ func (o op) coq() string {
 		return fmt.Sprintf("OBegin %d %s %s", o.T, hdrCoq(o.hdr()), o.payloadCoq())
 	case "finish":
 		return fmt.Sprintf("OFinish %d %s", o.T, outc[o.Out])
+	case "finishsf":
+		return fmt.Sprintf("OFinishStartFail %d", o.T)
 	case "isboot":
 		return "OIsBoot"
 	case "reload":
@@ -181,6 +183,7 @@ type mres struct {
 type world struct {
 	x    *srv15.Srv
 	ek   *kvx15.EtcdKV
+	sb   *kvx15.Base // controlled kv.Base inside core.Storage (to fail cluster.Start's LoadMeta)
 	ctx  context.Context
 	done [3]chan bres
 	park [3]bool
@@ -197,6 +200,8 @@ type world struct {
 	seen  []uint64 // renaming of cluster ids by first appearance
 
 	regionIDs []uint64
+
+	noMemberKey bool // view() of the bootstrap records only (cluster phase)
 }
 
 // header builds the request header of the given class; "nil" = the request has no header message at all
@@ -229,6 +234,8 @@ func bootObs(r bres) string {
 			return "BConflict"
 		case strings.Contains(m, "ErrEtcdTxnInternal"):
 			return "BEtcdErr"
+		case strings.Contains(m, "injected storage error"):
+			return "BStartErr"
 		}
 		for _, im := range invalidMsgs {
 			if strings.Contains(m, im.sub) {
@@ -252,12 +259,15 @@ func (w *world) startBoot(o op, park bool) string {
 	who := fmt.Sprintf("b%d", t)
 	go func() {
 		w.ek.Bind(who)
+		w.sb.Bind(who)
 		if park {
 			w.ek.Arm(who, kvx15.Park)
 		}
 		r, err := w.x.S.Bootstrap(w.ctx, o.request(w.header(o.hdr())))
 		w.ek.Arm(who, kvx15.Pass)
 		w.ek.Unbind()
+		w.sb.Disarm(who)
+		w.sb.Unbind()
 		w.done[t] <- bres{r, err}
 	}()
 	select {
@@ -319,10 +329,20 @@ func (w *world) exec(o op) string {
 		w.ek.Release(fmt.Sprintf("b%d", o.T), modes[o.Out])
 		w.park[o.T] = false
 		return bootObs(<-w.done[o.T])
+	case "finishsf":
+		if !w.park[o.T] {
+			return "BBad"
+		}
+		who := fmt.Sprintf("b%d", o.T)
+		// cluster.Start loads the cluster meta the transaction has just written: that load fails
+		w.sb.Arm(who, func(x kvx15.Op) bool { return x.Kind == kvx15.Load && x.Key == "raft" }, kvx15.FailBefore)
+		w.ek.Release(who, kvx15.Pass)
+		w.park[o.T] = false
+		return bootObs(<-w.done[o.T])
 	case "isboot":
 		r, err := w.x.S.IsBootstrapped(w.ctx, &pdpb.IsBootstrappedRequest{Header: w.header("")})
 		if err != nil {
-			return "BBad"
+			return "BBad (* " + strings.ReplaceAll(err.Error(), "*)", "") + " *)"
 		}
 		return "BBool " + coqfmt.Bool(r.GetBootstrapped())
 	case "reload":
@@ -448,6 +468,9 @@ func handlerNames(s *server.Server) []string {
 }
 
 func classifyWrong(err error, notBoot bool) string {
+	if err != nil && (strings.Contains(err.Error(), "not leader") || strings.Contains(err.Error(), "not started")) {
+		return "BBad (* " + err.Error() + " *)" // leadership lost under load: the case is dropped
+	}
 	if err != nil && strings.Contains(err.Error(), "mismatch cluster id") {
 		return "BMismatch"
 	}
@@ -594,6 +617,9 @@ func (w *world) view() string {
 		}
 	}
 	cid := "None"
+	if w.noMemberKey {
+		return fmt.Sprintf("(View %s %s %s %s %s)", coqfmt.Bool(hasRoot), coqfmt.Bool(hasTime), coqfmt.List(stores), coqfmt.List(regions), cid)
+	}
 	r2, err := w.admin.Get(w.ctx, w.mkey)
 	if err != nil {
 		panic(err)
@@ -711,7 +737,11 @@ func (w *world) genCase(r *rng.R, kind int, maxOps int) caseRec {
 				}
 			case 2:
 				if len(parked) > 0 {
-					w.step(&c, op{K: "finish", T: parked[r.Intn(len(parked))], Out: r.Pick(76, 12, 12)})
+					if r.Pct(12) {
+						w.step(&c, op{K: "finishsf", T: parked[r.Intn(len(parked))]})
+					} else {
+						w.step(&c, op{K: "finish", T: parked[r.Intn(len(parked))], Out: r.Pick(76, 12, 12)})
+					}
 					return true
 				}
 			case 3:
@@ -780,6 +810,9 @@ func directed(handlers []string) [][]op {
 		{{K: "begin", T: 0, PK: "valid"}, {K: "finish", T: 0, Out: 2}, {K: "isboot"}, {K: "boot", T: 1, PK: "valid"}, {K: "reload"}, {K: "isboot"}, {K: "boot", T: 1, PK: "valid"}},
 		// not applied: a later request wins
 		{{K: "begin", T: 0, PK: "valid"}, {K: "finish", T: 0, Out: 1}, {K: "isboot"}, {K: "boot", T: 1, PK: "valid"}, {K: "isboot"}, {K: "stop"}, {K: "boot", T: 2, PK: "valid"}, {K: "isboot"}},
+		// the winner's cluster.Start fails: error answer, record stored; retries are refused; the reload brings the cluster up
+		{{K: "begin", T: 0, PK: "valid"}, {K: "begin", T: 1, PK: "valid"}, {K: "finishsf", T: 0}, {K: "isboot"}, {K: "finish", T: 1}, {K: "boot", T: 2, PK: "valid"},
+			{K: "isboot"}, {K: "reload"}, {K: "isboot"}, {K: "boot", T: 2, PK: "valid"}},
 		// members racing for the cluster id
 		{{K: "membegin", M: 0}, {K: "membegin", M: 1}, {K: "membegin", M: 2}, {K: "memfinish", M: 1}, {K: "memfinish", M: 0}, {K: "memfinish", M: 2}, {K: "meminit", M: 1}},
 		{{K: "membegin", M: 0}, {K: "membegin", M: 1}, {K: "memfinish", M: 0, Out: 2}, {K: "memfinish", M: 1}, {K: "meminit", M: 0}, {K: "meminit", M: 2}},
@@ -902,7 +935,9 @@ func main() {
 		"reload / stop of the raft cluster, every gRPC handler called with a mismatching cluster id, and three members running " +
 		"initClusterID/initOrGetClusterID on one etcd with parked transactions; non-trivial = at least two requests (or members) " +
 		"reached their transaction and at least one was refused, lost, or faulted; distinct by sha256 of the canonical (ops,obs) text"
-	w := &world{x: x, ek: ek, ctx: context.Background(), R: R, me: me}
+	sb := kvx15.New(x.S.GetStorage().Base)
+	x.S.GetStorage().Base = sb
+	w := &world{x: x, ek: ek, sb: sb, ctx: context.Background(), R: R, me: me}
 	w.admin, _, err = me.NewClient()
 	if err != nil {
 		panic(err)
@@ -934,6 +969,17 @@ func main() {
 	var all []caseRec
 	caseNo := 0
 	emit := func(c caseRec, origin string) {
+		for _, ob := range c.Obs {
+			if strings.Contains(ob, "not leader") || strings.Contains(ob, "not started") {
+				// the member lost its 1 s leader lease (machine load): the case says nothing about the property
+				R.Count("case:dropped-leadership-lost")
+				if err := w.x.WaitLeader(60 * time.Second); err != nil {
+					panic(err)
+				}
+				caseNo++
+				return
+			}
+		}
 		reached, lost := 0, 0
 		for i, o := range c.Ops {
 			R.Count("op:" + o.K)
@@ -951,8 +997,11 @@ func main() {
 				reached++
 			}
 			switch ob {
-			case "BConflict", "BEtcdErr", "BAlready", "BInvalid", "BMismatch":
+			case "BConflict", "BEtcdErr", "BAlready", "BInvalid", "BMismatch", "BStartErr":
 				lost++
+			}
+			if o.K == "finishsf" {
+				R.Count("fault:cluster.Start-fails")
 			}
 			if (o.K == "finish" || o.K == "memfinish") && o.Out != 0 {
 				R.Count("fault:" + outc[o.Out])
@@ -1021,6 +1070,13 @@ func main() {
 		}
 	}
 	w.reset(caseNo)
+	if *replay == "" {
+		// last, because three more servers in the process disturb the timing of everything else
+		t0 := time.Now()
+		cleanupCluster := clusterPhase(R, true)
+		cleanupCluster()
+		R.Notes = append(R.Notes, fmt.Sprintf("cluster phase (3 real members, concurrent start, 4 concurrent Bootstrap requests, restart of all, close): %.1fs", time.Since(t0).Seconds()))
+	}
 	if *tier == "thorough" && *replay == "" {
 		nx := w.realLeaderChangeAndRestart(caseNo + 1)
 		defer nx.Close()
